@@ -50,7 +50,39 @@ Proof.
 Qed.
 Print Assumptions tie_vault_CalculateCollateralizationRatio.
 
+(* vault.VerifyCollaterlizationRatio: the error result as a number (0 = nil) *)
+Definition err_of (o : outcome Z) : outcome unit :=
+  match o with Ok e => if e =? 0 then Ok tt else Err e | Err _ => Panic | Panic => Panic end.
+
+Theorem tie_vault_VerifyCollaterlizationRatio :
+  forall s ep id pairId aid_in aid_out iid oid ain aout (status : bool) (f_esm : bool) pin (fin : bool) pout (fout : bool) vin ein vout eout,
+  (f_esm = false -> esm s (ep_app ep) = esm0) ->
+  snap s (ep_app ep) (ep_in ep) = (if fin then Some pin else None) ->
+  snap s (ep_app ep) (ep_out ep) = (if fout then Some pout else None) ->
+  (e_status (esm s (ep_app ep)) = false -> calc_asset_price s (ep_in ep) (ep_dec_in ep) ain = ret vin ein) ->
+  ((e_status (esm s (ep_app ep)) && e_snap (esm s (ep_app ep))) = false -> ep_oracle_out ep = true ->
+     calc_asset_price s (ep_out ep) (ep_dec_out ep) aout = ret vout eout) ->
+  err_of (gen_vault_VerifyCollaterlizationRatio id ain aout (ep_min_cr ep) status true pairId true aid_in true aid_out true (ep_app ep)
+            f_esm (e_status (esm s (ep_app ep))) (e_snap (esm s (ep_app ep))) iid pin fin (ep_dec_in ep)
+            (ep_oracle_out ep) oid pout fout (ep_dec_out ep) vout eout (ep_out_price ep) vin ein)
+  = Vault.verify_cr s ep ain aout status.
+Proof.
+  intros until eout. intros Hesm Hin Hout Hci Hco.
+  unfold gen_vault_VerifyCollaterlizationRatio, verify_cr.
+  rewrite <- (tie_vault_CalculateCollateralizationRatio s ep id pairId aid_in aid_out iid oid ain aout f_esm
+                pin fin pout fout vin ein vout eout Hesm Hin Hout Hci Hco).
+  destruct (gen_vault_CalculateCollateralizationRatio _ _ _ _ _ _ _ _ _ _ _ _ _ _ _ _ _ _ _ _ _ _ _ _ _ _ _ _) as [[r e] | c |];
+    [|reflexivity|reflexivity].
+  cbn [obind res_of err_of]. destruct (e =? 0) eqn:Ee; cbn [negb obind].
+  - unfold E_CR. change 1000000000000000000 with P18.
+    destruct ((r <? ep_min_cr ep) && negb status); [reflexivity|].
+    destruct ((r <? P18) && status); reflexivity.
+  - cbn [err_of]. rewrite Ee. reflexivity.
+Qed.
+Print Assumptions tie_vault_VerifyCollaterlizationRatio.
+
 Theorem tie_vault_recognised :
-  gen_vault_CalculateCollateralizationRatio_unrecognised = [] /\ gen_market_CalcAssetPrice_unrecognised = [].
-Proof. split; reflexivity. Qed.
+  gen_vault_CalculateCollateralizationRatio_unrecognised = [] /\ gen_market_CalcAssetPrice_unrecognised = [] /\
+  gen_vault_VerifyCollaterlizationRatio_unrecognised = [].
+Proof. repeat split; reflexivity. Qed.
 Print Assumptions tie_vault_recognised.
